@@ -422,6 +422,24 @@ def run(ctx):
                                 ctx.violation("history-undo", "applying the inverted steps in reverse order does not restore the starting document",
                                               {"schema": info.name, "doc": dd[1].to_json(), "ops": ["aimed same-type marks"], "steps": [x.to_json() for x in trm.steps],
                                                "culprit": k, "step": s_.to_json(), "culprit_doc": trm.docs[k].to_json(), "detail": "order of same-type marks"})
+            # aimed: adjacent text nodes carrying marks of one type with different attributes (link a next to link b); one more
+            # mark of that type added over the run, or the type / one of the marks / every mark removed from it
+            if rng.random() < 0.5:
+                case = gen.gen_same_type_run_case(rng, schema)
+                if case is not None:
+                    d0, f0, t0, m0, present0 = case
+                    forced = []
+                    if rng.random() < 0.25:
+                        # something typed in front first: the mark operation then works on shifted positions
+                        forced.append(("insert", [1, "x"], lambda tr: tr.insert(1, schema.text("x"))))
+                        f0, t0 = f0 + 1, t0 + 1
+                    if rng.random() < 0.6:
+                        forced.append(("add_mark", [f0, t0, m0], (lambda f0, t0, m0: lambda tr: tr.add_mark(f0, t0, m0))(f0, t0, m0)))
+                    else:
+                        w0 = rng.choice([m0.type, None, rng.choice(present0)])
+                        forced.append(("remove_mark", [f0, t0, w0], (lambda f0, t0, w0: lambda tr: tr.remove_mark(f0, t0, w0))(f0, t0, w0)))
+                    ctx.count("aimed-same-type-run-histories")
+                    history(info, d0, docs, None, len(forced), forced=forced)
             # aimed: `wrap` called directly with a *leaf* wrapper type (find_wrapping never proposes one).  Where the parent
             # takes the leaf before the range the operation goes through — it inserts the leaf, structure flag set — and
             # its inverse refuses to delete the leaf again: an instance of finding C04-structure-inverse emitted by a
